@@ -8,11 +8,13 @@ open TdModel
 
 theorem stage1_rows : stageRows Facts.C10.clientProgram 1 =
     [("ne", "res.Nonce", ["nonce"], "ResPQ nonce mismatch"),
+     ("label", "Loop", [], ""),
      ("cond", "selectedPubKey.Zero()", [], "ErrKeyFingerprintNotFound"),
      ("cond", "pq.Cmp(pqMax) > 0", [], "server provided bad pq"),
      ("cond", "pq.Cmp(big.NewInt(1)) <= 0 || pq.ProbablyPrime(0)", [], "server provided bad pq: not composite"),
      ("callerr", "crypto.DecomposePQ", ["pq", "c.rand"], "decompose pq"),
      ("callerr", "crypto.RandInt256", ["c.rand"], "generate new nonce"),
+     ("switch", "c.mode", ["ExchangeModeTemporary"], ""),
      ("callerr", "pqInnerData.Encode", ["b"], "err"),
      ("callerr", "crypto.RSAPad", ["b.Buf", "selectedPubKey.RSA", "c.rand"], "encrypted_data generation"),
      ("send", "ReqDHParamsRequest", [], "write ReqDHParamsRequest")] := by decide
